@@ -355,7 +355,12 @@ class WebProcessorSession(BaseProcessorSession):
             response.body.close()
 
             if request.body:
-                request.body.close()
+                if self._web_client_session.done():
+                    request.body.close()
+                else:
+                    # The request is sent again (with credentials after a
+                    # 401) or copied for a replaying redirect.
+                    request.body.seek(0)
 
             return action != Actions.NORMAL, wait_time
 
